@@ -645,7 +645,7 @@ class XsdAttributeGroup(
             for k, v in self._attribute_group.items():
                 if v.fixed is not None and k:
                     yield k, v.fixed
-                elif v.default is not None and k:
+                elif v.default is not None and k and v.use != 'prohibited':
                     yield k, v.default
         else:
             for k, v in self._attribute_group.items():
